@@ -27,7 +27,8 @@ REQUIRED = ["trees_built", "trees_with_unpruned_leaf", "trees_fully_pruned", "pr
             "sets_with_a_vacuous_assertion_whose_candidate_is_in_its_own_eliminated_set",
             "parse_logs_with_missing_or_short_assertion_json",
             "parse_winner_only_entry_with_an_empty_list_or_null_for_already_eliminated",
-            "parse_candidate_manifest_omits_a_candidate_of_the_contest", "parse_contest_labelled_other_than_IRV"]
+            "parse_candidate_manifest_omits_a_candidate_of_the_contest", "parse_contest_labelled_other_than_IRV",
+            "printed_trees_compared_with_the_tree_of_the_full_set"]
 ASSUMPTIONS = ["tag comparison is by assertion content (the module identifies an assertion by list.index, which maps exact "
                "duplicates to one index)"]
 N_CASES = {"quick": 128000, "thorough": 1024000}
@@ -263,6 +264,49 @@ def run_case(case, rec):
             rec.violation("c20.marker", "rendered_tag_does_not_show_the_nodes_assertions",
                           {"rendered": tag, "NEB": want.get("NEB"), "IRV": want.get("IRV")})
             return
+    if (len(cands) * 5 + len(wo) * 3 + len(el)) % 8 == 0 and len(cands) <= 5:
+        # the trees as the notebook draws them (buildPrintedResults: one tree per reported loser, the assertions numbered as
+        # printAssertions lists them, i.e. by their position in the FULL lists): every tree it builds must be the tree of
+        # the full assertion set - observed by wrapping the tree builder while buildPrintedResults runs
+        seen, orig, depth = [], V.buildRemainingTreeAsLists, [0]
+
+        def spy(c_, S_, W_, I_):      # (the builder recurses through the module global: only top-level calls are recorded)
+            depth[0] += 1
+            try:
+                out = orig(c_, S_, W_, I_)
+            finally:
+                depth[0] -= 1
+            if depth[0] == 0:
+                seen.append((c_, out))
+            return out
+        V.buildRemainingTreeAsLists = spy
+        try:
+            with contextlib.redirect_stdout(sink), warnings.catch_warnings():
+                warnings.simplefilter("ignore")
+                winner0 = cands[0]
+                okp, _ = rec.guard("c20.call:buildPrintedResults", V.buildPrintedResults, winner0,
+                                   [(c_, f"cand {c_}") for c_ in cands[1:]], list(wo), list(el))
+        finally:
+            V.buildRemainingTreeAsLists = orig
+        if not okp:
+            return
+        rec.count("printed_results_built")
+        if sorted(str(c_) for c_, _ in seen) != sorted(str(c_) for c_ in cands[1:]):
+            rec.violation("c20.tags", "printed_results_do_not_hold_one_tree_per_reported_loser", {"roots": [c_ for c_, _ in seen]})
+            return
+        for c_, t_ in seen:
+            okd, direct = rec.guard("c20.call:buildRemainingTreeAsLists", orig, c_, set(cands) - {c_}, list(wo), list(el))
+            if not okd:
+                return
+            a_l, a_p, b_l, b_p = [], [], [], []
+            walk(t_, [], a_l, a_p)
+            walk(direct, [], b_l, b_p)
+            sig = lambda L: sorted((tuple(p_), tuple(n_.NEBTagList), tuple(n_.IRVTagList)) for p_, n_ in L)
+            rec.count("printed_trees_compared_with_the_tree_of_the_full_set")
+            if sig(a_l) != sig(b_l) or sig(a_p) != sig(b_p):
+                rec.violation("c20.tags", "printed_tree_is_not_the_tree_of_the_full_assertion_set",
+                              {"root": c_, "printed": [list(map(str, x)) for x in sig(a_p)][:4], "full_set": [list(map(str, x)) for x in sig(b_p)][:4]})
+                return
 
 
 def run_parse(case, rec, V):
